@@ -408,3 +408,190 @@ Definition stmt_eqb (x y : stmt) : bool :=
   | SAD hs b, SAD hs' b' => tms_eqb hs hs' && tm_eqb b b'
   | _, _ => false
   end.
+
+(* ------------------------------------------------------------------ tokenizer (string level) *)
+Local Open Scope char_scope.
+
+Definition c_le (a b : ascii) : bool := nat_of_ascii a <=? nat_of_ascii b.
+Definition is_digit (c : ascii) : bool := c_le "0" c && c_le c "9".
+Definition is_lower (c : ascii) : bool := c_le "a" c && c_le c "z".
+Definition is_upper (c : ascii) : bool := (c_le "A" c && c_le c "Z") || Ascii.eqb c "_".
+Definition is_alnum (c : ascii) : bool := is_digit c || is_lower c || is_upper c.
+Definition is_space (c : ascii) : bool := nat_of_ascii c <=? 32.
+
+Fixpoint take_while (p : ascii -> bool) (s : string) : string * string :=
+  match s with
+  | EmptyString => (EmptyString, EmptyString)
+  | String c r =>
+      if p c then let (a, b) := take_while p r in (String c a, b)
+      else (EmptyString, s)
+  end.
+
+(* up to (excluding) the first occurrence of q; None when q does not occur or a
+   backslash is met (escapes are outside the printable fragment) *)
+Fixpoint take_until (q : ascii) (s : string) : option (string * string) :=
+  match s with
+  | EmptyString => None
+  | String c r =>
+      if Ascii.eqb c q then Some (EmptyString, r)
+      else if Ascii.eqb c "\" then None
+      else match take_until q r with
+           | Some (a, b) => Some (String c a, b)
+           | None => None
+           end
+  end.
+
+Definition next_open (s : string) : bool :=
+  match s with
+  | String c _ => Ascii.eqb c "(" || Ascii.eqb c "["
+  | EmptyString => false
+  end.
+
+Local Open Scope string_scope.
+
+(* symbolic names of the tokenizer (parser.py _token_*), longest first *)
+Definition sym_table : list string :=
+  [ "\=@="; "~=/=";
+    "-->"; "=:="; "=\="; "=@="; "=.."; "@=<"; "@>="; "\=="; "~=="; "~=<"; "~>="; "*->";
+    "->"; ":-"; "::"; "<-"; "<<"; "=<"; "=="; "=>"; ">>"; "><"; ">="; "@<"; "@>";
+    "\\"; "\+"; "\="; "\/"; "~<"; "~>"; "~="; "**"; "/\"; "//";
+    "-"; ":"; "<"; "="; ">"; "\"; "~"; "*"; "+"; "/"; "^"; "#" ].
+
+Fixpoint strip_prefix (p s : string) : option string :=
+  match p, s with
+  | EmptyString, _ => Some s
+  | String a p', String b s' => if Ascii.eqb a b then strip_prefix p' s' else None
+  | _, _ => None
+  end.
+
+Fixpoint find_sym (tbl : list string) (s : string) : option (string * string) :=
+  match tbl with
+  | [] => None
+  | k :: r => match strip_prefix k s with
+              | Some rest => Some (k, rest)
+              | None => find_sym r s
+              end
+  end.
+
+Fixpoint digits_to_N (s : string) (acc : N) : N :=
+  match s with
+  | EmptyString => acc
+  | String c r => digits_to_N r (acc * 10 + N.of_nat (nat_of_ascii c - 48))%N
+  end.
+
+Definition starts_digit (s : string) : bool :=
+  match s with String c _ => is_digit c | _ => false end.
+
+(* digits [. digits] [e [+-] digits] *)
+Definition lex_number (s : string) : token * string :=
+  let (ip, r0) := take_while is_digit s in
+  let '(fp, r1) :=
+    match r0 with
+    | String "."%char r => if starts_digit r then let (d, r') := take_while is_digit r in (String "."%char d, r') else (EmptyString, r0)
+    | _ => (EmptyString, r0)
+    end in
+  let '(ep, r2) :=
+    match r1 with
+    | String "e"%char r =>
+        match r with
+        | String sg r' =>
+            if (Ascii.eqb sg "+"%char || Ascii.eqb sg "-"%char) && starts_digit r'
+            then let (d, r'') := take_while is_digit r' in (String "e"%char (String sg d), r'')
+            else if starts_digit r then let (d, r'') := take_while is_digit r in (String "e"%char d, r'')
+            else (EmptyString, r1)
+        | EmptyString => (EmptyString, r1)
+        end
+    | _ => (EmptyString, r1)
+    end in
+  match fp, ep with
+  | EmptyString, EmptyString => (TInt (digits_to_N ip 0%N), r2)
+  | _, _ => (TFlt (ip ++ fp ++ ep), r2)
+  end.
+
+Definition consk (t : token) (r : option (list token)) : option (list token) :=
+  match r with Some l => Some (t :: l) | None => None end.
+
+Fixpoint lex (f : nat) (s : string) {struct f} : option (list token) :=
+  match f with
+  | 0 => None
+  | S f' =>
+      match s with
+      | EmptyString => Some []
+      | String c r =>
+          if is_space c then lex f' r
+          else if is_digit c then let (t, r') := lex_number s in consk t (lex f' r')
+          else if is_lower c then
+            let (w, r') := take_while is_alnum s in consk (TName w (next_open r')) (lex f' r')
+          else if is_upper c then
+            let (w, r') := take_while is_alnum s in consk (TVar w) (lex f' r')
+          else if Ascii.eqb c "'"%char then
+            match take_until "'"%char r with
+            | Some (w, r') =>
+                consk (TName (String "'"%char (w ++ "'")) (next_open r')) (lex f' r')
+            | None => None
+            end
+          else if Ascii.eqb c """"%char then
+            match take_until """"%char r with
+            | Some (w, r') => consk (TStr w) (lex f' r')
+            | None => None
+            end
+          else if Ascii.eqb c "("%char then consk TOpen (lex f' r)
+          else if Ascii.eqb c ")"%char then consk TClose (lex f' r)
+          else if Ascii.eqb c "["%char then consk TLBrack (lex f' r)
+          else if Ascii.eqb c "]"%char then consk TRBrack (lex f' r)
+          else if Ascii.eqb c ","%char then consk TComma (lex f' r)
+          else if Ascii.eqb c "|"%char then consk TBar (lex f' r)
+          else if Ascii.eqb c ";"%char then consk (TName ";" (next_open r)) (lex f' r)
+          else if Ascii.eqb c "!"%char then consk (TName "!" (next_open r)) (lex f' r)
+          else
+            match find_sym sym_table s with
+            | Some (k, r') =>
+                consk (TName k (match k with String _ EmptyString => next_open r' | _ => false end)) (lex f' r')
+            | None => None
+            end
+      end
+  end.
+
+Definition tokenize (s : string) : option (list token) := lex (S (String.length s)) s.
+
+Definition read_string (s : string) : option stmt :=
+  match tokenize s with
+  | Some ts => read_tokens ts
+  | None => None
+  end.
+
+Definition token_eqb (a b : token) : bool :=
+  match a, b with
+  | TName s c, TName s' c' => String.eqb s s' && Bool.eqb c c'
+  | TVar s, TVar s' => String.eqb s s'
+  | TInt n, TInt n' => N.eqb n n'
+  | TFlt s, TFlt s' => String.eqb s s'
+  | TStr s, TStr s' => String.eqb s s'
+  | TOpen, TOpen | TClose, TClose | TLBrack, TLBrack | TRBrack, TRBrack
+  | TComma, TComma | TBar, TBar => true
+  | _, _ => false
+  end.
+
+Fixpoint tokens_eqb (l l' : list token) : bool :=
+  match l, l' with
+  | [], [] => true
+  | a :: r, b :: r' => token_eqb a b && tokens_eqb r r'
+  | _, _ => false
+  end.
+
+(* the lexical half of [printable]: the tokenizer recovers exactly the token
+   list the printer meant (no two pieces glue together, every name / number /
+   string text is lexed back as one token with the same functional-notation flag) *)
+Definition lex_ok (s : stmt) : bool :=
+  match tokenize (print_stmt s) with
+  | Some ts => tokens_eqb ts (print_tokens s)
+  | None => false
+  end.
+
+Definition printable (s : stmt) : bool := ok_stmt s && lex_ok s.
+
+Definition read_ok (s : stmt) : bool :=
+  match read_string (print_stmt s) with
+  | Some s' => stmt_eqb s' s
+  | None => false
+  end.
